@@ -168,6 +168,17 @@ Theorem C18_table_rows : forall (V : Type) (g : grid V) d0 d1 (north east : list
 Proof. exact table_rows. Qed.
 Print Assumptions C18_table_rows.
 
+(** the decidable statement evaluated on the implementation's table in the
+    generated case files is satisfied by the model's table on every aligned
+    grid (it restates [C18_table_rows]) *)
+Theorem C18_table_holds_model : forall (V : Type) (veqb : V -> V -> bool),
+  (forall x y, veqb x y = true <-> x = y) ->
+  forall (g : grid V) d0 d1 (north east : list V),
+  aligned_grid g d0 d1 north east ->
+  table_holds veqb g (grid_to_table g) = true.
+Proof. exact table_holds_model. Qed.
+Print Assumptions C18_table_holds_model.
+
 (** ** arrays -> grid -> table returns the raveled inputs *)
 
 Theorem C18_grid_table_roundtrip : forall (V : Type) (close : V -> V -> bool)
@@ -216,6 +227,18 @@ Theorem C18_meshgrid_from_to_1d : forall (V : Type) (close : V -> V -> bool)
   meshgrid_from_1d e n extras = Some (E, N).
 Proof. exact meshgrid_from_to_1d. Qed.
 Print Assumptions C18_meshgrid_from_to_1d.
+
+Theorem C18_meshgrid_inverse : forall (V : Type) (close : V -> V -> bool) (extras : list (arr2 V)),
+  (forall x, close x x = true) ->
+  (forall e n : list V, e <> [] -> n <> [] ->
+     forallb (rect (length n) (length e)) extras = true ->
+     exists E N, meshgrid_from_1d e n extras = Some (E, N) /\
+                 meshgrid_to_1d close E N extras = Some (e, n)) /\
+  (forall (E N : arr2 V) e n, meshgrid_to_1d close E N extras = Some (e, n) ->
+     rows_equal_first E -> cols_equal_first N ->
+     meshgrid_from_1d e n extras = Some (E, N)).
+Proof. exact meshgrid_inverse. Qed.
+Print Assumptions C18_meshgrid_inverse.
 
 (** the vectors returned by meshgrid_to_1d agree with every cell of the input *)
 Theorem C18_meshgrid_to_1d_cells : forall (V : Type) (close : V -> V -> bool)
